@@ -949,6 +949,11 @@ func (s *Store[K, V]) Persist(version uint64, writer io.Writer) error {
 	s.policyMu.Lock()
 	defer s.policyMu.Unlock()
 
+	// reads may leave the protected region above its capacity (the demotion is
+	// delayed until the next write): do it now, or a cache of the same size
+	// drops the overflow when it loads the protected block
+	s.policy.demoteFromProtected()
+
 	var total int
 	for _, s := range s.shards {
 		token := s.mu.RLock()
